@@ -12,7 +12,7 @@
 
 void harness(void)
 {
-	char in_str[NS + 1]; IN(size_t, in_n); IN(int, in_use_last);
+	char in_str[NS + 1]; IN(size_t, in_n); IN(int, in_use_last); V_FILL(in_str);
 	MPT_STRUCT(path) p = MPT_PATH_INIT; size_t i, start = 0, comps = 1, visited = 0; int r;
 	V_REQ(in_n <= NS);
 	for (i = 0; i < NS; i++) { V_REQ(IMP(i < in_n, in_str[i] == '.' || in_str[i] == 'a' || in_str[i] == 'b')); }
